@@ -178,6 +178,17 @@ func ModelOsMkdirAll(path string, perm os.FileMode) error {
 			return err
 		}
 	}
+	// MkdirAll is one mkdir per missing level: another goroutine may run in between
+	PreemptPoint()
+	if p := vfsNodes[parent]; parent != path && (p == nil || !p.dir) {
+		return errVfsNotExist
+	}
+	if n := vfsNodes[path]; n != nil {
+		if n.dir {
+			return nil
+		}
+		return errVfsExist
+	}
 	vfsMutation()
 	vfsNodes[path] = &vfsNode{dir: true}
 	return nil
